@@ -35,6 +35,7 @@ type TEnv struct {
 	pkg         string
 	vars        map[string]TV
 	lookup      func(string) (TV, bool)
+	lookupOld   func(string) (TV, bool)
 	cur, old    Heap
 	results     []TV
 	resultNames []string
@@ -496,6 +497,9 @@ func (env *TEnv) trCall(x *ECall) (TV, error) {
 		}
 		n := *env
 		n.cur = env.old
+		if env.lookupOld != nil {
+			n.lookup = env.lookupOld
+		}
 		return n.tr(x.Args[0])
 	case "len", "cap":
 		if err := argN(1); err != nil {
@@ -943,6 +947,7 @@ func findIndexedSlice(e Expr, v string, bound map[string]bool) Expr {
 		}
 		return false
 	}
+	inOld := 0
 	walk = func(e Expr) {
 		if found != nil || e == nil {
 			return
@@ -951,6 +956,10 @@ func findIndexedSlice(e Expr, v string, bound map[string]bool) Expr {
 		case *EIndex:
 			if isV(x.I) && !mentions(x.X) {
 				found = x.X
+				if inOld > 0 {
+					// the slice is read in the old state: so is its offset
+					found = &ECall{Fn: "old", Args: []Expr{x.X}}
+				}
 				return
 			}
 			walk(x.X)
@@ -965,8 +974,14 @@ func findIndexedSlice(e Expr, v string, bound map[string]bool) Expr {
 			walk(x.A)
 			walk(x.B)
 		case *ECall:
+			if x.Fn == "old" {
+				inOld++
+			}
 			for _, a := range x.Args {
 				walk(a)
+			}
+			if x.Fn == "old" {
+				inOld--
 			}
 		case *EField:
 			walk(x.X)
